@@ -1,5 +1,6 @@
 // govc:pkg .
 // govc:bound HAVING: 5 aggregates x 2 columns x {>,<,>=} x 3 thresholds singly, and 40 AND/OR pairs of unselected aggregates (about 130 queries; every third one beside a compound SELECT item); SELECT items: 12 item shapes (incl. parenthesised literal operands) plus 9 items using one aggregate twice over swapped operands x aggregates {sum,avg,min,max,count} x columns {v,w} x operators {+,-,*,/} x literals {2,0.5,32} on one fixed batch of 3 groups x 3 rows (about 700 queries)
+// govc:also C11
 // Bounded stand-in (NOT a proof): SELECT items that combine aggregate calls, literals and arithmetic, executed through
 // the real engine (Execute / Emit / sync sink) against a relational oracle computed from the same rows. The classification
 // and rewriting of such items (rsql/ast.go, aggregator/post_aggregation.go) is regular-expression based and outside the
